@@ -382,18 +382,35 @@ Verdict judge(const Case &k, const Obs &o, const Line &ln, const int stat[3]) {
   const bool exact = exact_mode(k, ln);
   const int nsteps = B.n[0] + B.n[1] + B.n[2] + 2;
   const LD Ldiag = B.diag();
-  LD E[3], Epos[3];
+  LD E0[3], E[3], Epos[3];
   for (int i = 0; i < 3; ++i) {
-    E[i] = exact ? 0.L : 16.L * EPS * (LD)B.L[i] * nsteps;
+    E0[i] = exact ? 0.L : 16.L * EPS * (LD)B.L[i] * nsteps;
     // position + anchor and back costs ulps of the absolute coordinates
     Epos[i] = 4.L * EPS * (std::abs((LD)B.anchor[i]) + (LD)B.L[i]);
   }
+  // A start point within rounding of a wall (not exactly on it) may be
+  // assigned to the cell on the other side; the traversal then begins with a
+  // step of up to E/|d| backwards along the line, which displaces the other
+  // coordinates by tback*|d_j|.  Only relevant for grazing directions; the
+  // brackets below widen accordingly and such cases are labelled.
+  LD tback = 0.L;
+  for (int i = 0; i < 3; ++i) {
+    if (!ln.moving(i) || E0[i] == 0.L)
+      continue;
+    for (int kk = 0; kk <= B.n[i]; ++kk)
+      if (fabsl((LD)ln.x0[i] - (LD)B.wall[i][kk]) <= E0[i] &&
+          ln.x0[i] != B.wall[i][kk])
+        tback = std::max(tback, E0[i] / fabsl((LD)ln.d[i]));
+  }
+  for (int i = 0; i < 3; ++i)
+    E[i] = E0[i] + tback * fabsl((LD)ln.d[i]);
   const LD slack = 16.L * EPS * Ldiag;
   const LD Esum = E[0] + E[1] + E[2];
   const LD KT = exact ? 0.L : 8.L * EPS * nsteps; // relative, optical depth
 
   const geo::Exit ex = geo::exit_of(B, ln);
-  const std::vector<geo::Near> near = geo::near_cells(B, ln, stat, E);
+  const std::vector<geo::Near> near =
+      geo::near_cells(B, ln, stat, E, tback);
   const std::vector<geo::Segment> segs = geo::segments(B, ln, stat);
 
   geo::TauFn thi, tlo;
@@ -404,7 +421,15 @@ Verdict judge(const Case &k, const Obs &o, const Line &ln, const int stat[3]) {
   }
   thi.factor = 1.L + KT;
   tlo.factor = 1.L - KT;
-  const LD tau_hi_tot = thi.total(), tau_lo_tot = tlo.total();
+  // optical depth that negative (backward / wrong side of a wall) steps of
+  // rounding size can take away
+  LD NEG = 0.L;
+  for (auto &nc : near)
+    NEG += kappa_of(k, nc.cell) * (nc.infl.len() - nc.defl.len());
+  if (exact)
+    NEG = 0.L;
+  const LD tau_hi_tot = thi.at(INF) , tau_lo_raw = tlo.total();
+  const LD tau_lo_tot = tau_lo_raw - NEG;
   const LD target = k.tau;
 
   // ------------------------------------------------------------- decision
@@ -421,7 +446,7 @@ Verdict judge(const Case &k, const Obs &o, const Line &ln, const int stat[3]) {
   }
   if (dec != MUST_EXIT) {
     t_lo = thi.first_passage(target);
-    t_hi = tlo.first_passage(target); // INF if the lower bound never gets there
+    t_hi = tlo.first_passage(target + NEG); // INF if never reached
     if (t_lo == INF) // cannot happen (tau_hi_tot >= target), be safe
       t_lo = 0.L;
     t_lo -= slack;
@@ -575,6 +600,7 @@ Verdict judge(const Case &k, const Obs &o, const Line &ln, const int stat[3]) {
                    c, h, o.dH[(size_t)c * NH + h]));
   }
   LD sum_ell = 0.L, sum_abs_ell = 0.L, sum_tau = 0.L, scale_tau = 0.L;
+  LD tau_res = 0.L; // resolution of sum_tau when J0 != 0
   int nvisited = 0;
   if (deposits) {
     // bracket of the parameter range in which deposits can be made
@@ -589,12 +615,15 @@ Verdict judge(const Case &k, const Obs &o, const Line &ln, const int stat[3]) {
       LD ell = 0.L;
       if (ref >= 0)
         ell = (LD)dJ[ref] / ((LD)k.sigma[ref] * (LD)k.weight);
+      // resolution of a length recovered from (J0 + increment) - J0
       const LD elltol =
           ref >= 0 ? jtol / ((LD)k.sigma[ref] * (LD)k.weight) : 0.L;
       // every ion and heating term is the same length
       for (int ion = 0; ion < NI; ++ion) {
         const LD want = ell * (LD)k.sigma[ion] * (LD)k.weight;
-        if (fabsl((LD)dJ[ion] - want) > 8.L * EPS * fabsl(want) + 2.L * jtol)
+        if (fabsl((LD)dJ[ion] - want) >
+            8.L * EPS * fabsl(want) + 2.L * jtol + 1e-290L +
+                elltol * (LD)k.sigma[ion] * (LD)k.weight)
           v.fail(fmt("cell %d: intensity integral of ion %d grew by %.17g, "
                      "weight*sigma*length = %.17Lg (length %.17Lg from ion %d)",
                      c, ion, dJ[ion], want, ell, ref));
@@ -603,14 +632,18 @@ Verdict judge(const Case &k, const Obs &o, const Line &ln, const int stat[3]) {
         const LD wH = ell * (LD)k.sigma[ION_H_n] * (LD)k.weight *
                       ((LD)k.energy - (LD)NU_H);
         if (fabsl((LD)dH[HEATINGTERM_H] - wH) >
-            8.L * EPS * fabsl(wH) + 2.L * jtol)
+            8.L * EPS * fabsl(wH) + 2.L * jtol +
+                elltol * (LD)k.sigma[ION_H_n] * (LD)k.weight *
+                    fabsl((LD)k.energy - (LD)NU_H))
           v.fail(fmt("cell %d: hydrogen heating grew by %.17g, expected "
                      "%.17Lg",
                      c, dH[HEATINGTERM_H], wH));
         const LD wHe = ell * (LD)k.sigma[ION_He_n] * (LD)k.weight *
                        ((LD)k.energy - (LD)NU_HE);
         if (fabsl((LD)dH[HEATINGTERM_He] - wHe) >
-            8.L * EPS * fabsl(wHe) + 2.L * jtol)
+            8.L * EPS * fabsl(wHe) + 2.L * jtol +
+                elltol * (LD)k.sigma[ION_He_n] * (LD)k.weight *
+                    fabsl((LD)k.energy - (LD)NU_HE))
           v.fail(fmt("cell %d: helium heating grew by %.17g, expected %.17Lg",
                      c, dH[HEATINGTERM_He], wHe));
       }
@@ -623,7 +656,11 @@ Verdict judge(const Case &k, const Obs &o, const Line &ln, const int stat[3]) {
       if (cap_lo < INF)
         lo = geo::isect(lo, Interval{0.L, cap_lo});
       const LD tol = slack + elltol + 8.L * EPS * fabsl(ell);
-      if (ell > up.len() + tol || ell < lo.len() - tol)
+      // a cell that is only touched within rounding can also be credited a
+      // negative length of that size
+      const LD negallow = std::min(nc.infl.len() - nc.defl.len(),
+                                   tback + slack);
+      if (ell > up.len() + tol || ell < lo.len() - tol - (lo.len() > 0.L ? 0.L : negallow))
         v.fail(fmt("cell (%d,%d,%d) was credited a path length of %.17Lg; "
                    "the line spends between %.17Lg and %.17Lg in it",
                    nc.idx[0], nc.idx[1], nc.idx[2], ell, lo.len(), up.len()));
@@ -631,6 +668,7 @@ Verdict judge(const Case &k, const Obs &o, const Line &ln, const int stat[3]) {
       sum_abs_ell += fabsl(ell);
       const LD kap = kappa_of(k, c);
       sum_tau += kap * ell;
+      tau_res += kap * elltol;
       if (!(stopped && t_hi < INF) || nc.infl.a <= t_hi)
         scale_tau += kap * nc.infl.len();
       if (ell != 0.L)
@@ -641,7 +679,8 @@ Verdict judge(const Case &k, const Obs &o, const Line &ln, const int stat[3]) {
       const LD tol = slack * nsteps + 8.L * EPS * sum_abs_ell + Eposmax + Esum +
                      4.L * EPS * k.J0 * near.size() /
                          ((LD)k.sigma[ref] * (LD)k.weight);
-      if (fabsl(sum_ell - dist) > tol)
+      // (signed: a packet may end a rounding-sized step behind its start)
+      if (fabsl(sum_ell - s_code) > tol || fabsl(dist - fabsl(s_code)) > tol)
         v.fail(fmt("credited path lengths add up to %.17Lg, the packet moved "
                    "%.17Lg",
                    sum_ell, dist));
@@ -671,7 +710,7 @@ Verdict judge(const Case &k, const Obs &o, const Line &ln, const int stat[3]) {
                    used, tau_lo_tot, tau_hi_tot));
       if (deposits && ref >= 0 &&
           fabsl(used - sum_tau) >
-              rt * (scale_tau + target))
+              rt * (scale_tau + target) + tau_res)
         v.fail(fmt("optical depth used up is %.17Lg, density x neutral "
                    "fraction x cross section x credited length sums to %.17Lg",
                    used, sum_tau));
@@ -681,7 +720,7 @@ Verdict judge(const Case &k, const Obs &o, const Line &ln, const int stat[3]) {
                    "left",
                    o.tau_after));
       if (deposits && ref >= 0 &&
-          fabsl(target - sum_tau) > rt * (scale_tau + target))
+          fabsl(target - sum_tau) > rt * (scale_tau + target) + tau_res)
         v.fail(fmt("packet stopped; density x neutral fraction x cross "
                    "section x credited length sums to %.17Lg, the target was "
                    "%.17g",
@@ -729,6 +768,10 @@ Verdict judge(const Case &k, const Obs &o, const Line &ln, const int stat[3]) {
                  (have_must && nm >= 2);
   if (dec == AMBIG)
     v.nontrivial = false;
+  if (tback > 1e-9L * Ldiag) {
+    v.labels.push_back("grazing-start-within-rounding-of-a-wall");
+    v.nontrivial = false;
+  }
   (void)nvisited;
   return v;
 }
@@ -738,6 +781,16 @@ VResult oracle(const VCase &vc, int method) {
   const Case k = unpack(vc, method);
   const Block &B = k.B;
   Obs o = run_code(k); // a VerifAbort propagates: "unexpected abort"
+  if (getenv("C02_TRACE")) { // diagnostics for --replay only
+    fprintf(stderr, "TRACE out=%d pend-anchor=%.17g %.17g %.17g tau_after=%.17g d=%.17g %.17g %.17g\n",
+            o.out, o.pend[0] - B.anchor[0], o.pend[1] - B.anchor[1],
+            o.pend[2] - B.anchor[2], o.tau_after, o.d[0], o.d[1], o.d[2]);
+    for (int c = 0; c < B.ncell(); ++c)
+      if (o.dJ[(size_t)c * NUMBER_OF_IONNAMES] != 0.)
+        fprintf(stderr, "TRACE cell %d dJ_H=%.17g ell=%.17g kappa=%.6Lg\n", c,
+                o.dJ[(size_t)c * NUMBER_OF_IONNAMES],
+                o.dJ[(size_t)c * NUMBER_OF_IONNAMES] / (k.sigma[0] * k.weight), kappa_of(k, c));
+  }
   Line ln;
   start_point(k, ln.x0);
   for (int i = 0; i < 3; ++i)
@@ -794,6 +847,11 @@ double nextafter_n(double x, int n) {
     x = std::nextafter(x, n > 0 ? HUGE_VAL : -HUGE_VAL);
   return x;
 }
+// n "ulps" next to a coordinate of a block of size L: next to 0 the rounding
+// of anchor additions is of the order eps * L, not a denormal
+double jitter(double x, int n, double L) {
+  return x == 0. ? n * EPS * L : nextafter_n(x, n);
+}
 
 int gen_ncell() {
   switch (vr::weighted({35, 40, 25})) {
@@ -808,6 +866,10 @@ int gen_ncell() {
 
 VCase gen_case(int method) {
   VCase c;
+  // scenario: 0 general, 1 provably exact arithmetic (axis aligned, small
+  // dyadic data: exact optical depth ties), 2 provably exact geometric ties
+  // (lattice diagonal through cell corners ending on a block edge / corner)
+  const int scen = vr::weighted({68, 16, 16});
   // ------------------------------------------------------------ geometry
   int n[3];
   double anchor[3], side[3];
@@ -815,7 +877,7 @@ VCase gen_case(int method) {
     n[i] = gen_ncell();
   if (vr::coin(0.2))
     n[1] = n[2] = n[0];
-  const int gmode = vr::weighted({45, 30, 25});
+  const int gmode = scen != 0 ? 0 : vr::weighted({35, 35, 30});
   bool smallcontent = false;
   if (gmode == 0) { // dyadic cells, dyadic anchor: everything exact
     const double h = std::ldexp(1., -(int)vr::irange(0, 3));
@@ -828,7 +890,7 @@ VCase gen_case(int method) {
       side[i] = n[i] * cs;
       anchor[i] = vr::coin(0.4) ? 0. : (double)vr::irange(-128, 128) / 16.;
     }
-    smallcontent = vr::coin(0.6);
+    smallcontent = scen == 1 || vr::coin(0.4);
   } else if (gmode == 1) { // generic sides and anchors, several length scales
     static const std::vector<double> sc = {1., 1., 1e-3, 1e3, 3.0857e16};
     const double S = vr::pick(sc);
@@ -848,68 +910,141 @@ VCase gen_case(int method) {
   const Block B = geo::make_block(n, anchor, side);
   const int nc = B.ncell();
 
-  // ------------------------------------------------------------ entry
   int entry = TRAVELDIRECTION_INSIDE;
-  if (vr::coin(0.45))
-    entry = (int)vr::irange(1, TRAVELDIRECTION_NUMBER - 1);
-  const int *es = td_spec(entry);
+  double rel[3];
+  double v[3] = {0., 0., 0.};
+  int es_store[3] = {0, 0, 0};
+  const int *es = es_store;
+
+  if (scen == 2) {
+    // ---------------------------------------------------------- exact ties
+    // moving dimensions step one cell per event (v_i = +-cs_i); the dimensions
+    // in G reach the block boundary together after m events
+    int s[3], mov[3], inG[3];
+    int nmov = 0;
+    const int stat = vr::coin(0.3) ? (int)vr::irange(0, 2) : -1;
+    for (int i = 0; i < 3; ++i) {
+      s[i] = vr::coin() ? 1 : -1;
+      mov[i] = (i != stat);
+      nmov += mov[i];
+      inG[i] = 0;
+    }
+    // choose G: all moving dims, or two of three
+    int drop = (nmov == 3 && vr::coin(0.45)) ? (int)vr::irange(0, 2) : -1;
+    int mmax = 1000;
+    for (int i = 0; i < 3; ++i) {
+      inG[i] = mov[i] && i != drop;
+      if (inG[i])
+        mmax = std::min(mmax, n[i]);
+    }
+    int m = (int)vr::irange(1, mmax);
+    if (drop >= 0 && n[drop] <= m) { // cannot stay inside longer: joins the tie
+      m = n[drop];
+      inG[drop] = 1;
+    }
+    int k[3];
+    for (int i = 0; i < 3; ++i) {
+      if (!mov[i]) {
+        k[i] = -1;
+        continue;
+      }
+      const int W = s[i] > 0 ? n[i] : 0;
+      const int steps = inG[i] ? m : (int)vr::irange(m + 1, n[i]);
+      k[i] = W - s[i] * steps;
+    }
+    for (int i = 0; i < 3; ++i) {
+      if (!mov[i]) {
+        const int kw = (int)vr::irange(0, n[i] - 1);
+        rel[i] = vr::coin(0.3) ? B.wall[i][kw]
+                               : B.wall[i][kw] + B.cs[i] * (double)vr::irange(1, 15) / 16.;
+        v[i] = 0.;
+        continue;
+      }
+      rel[i] = B.wall[i][k[i]];
+      v[i] = s[i] * B.cs[i];
+      // start on the block boundary: enters through it (upper boundary:
+      // always; lower boundary: half of the time, otherwise INSIDE at 0)
+      if (k[i] == n[i])
+        es_store[i] = 1;
+      else if (k[i] == 0 && vr::coin())
+        es_store[i] = -1;
+    }
+    for (auto &t : TDS)
+      if (t.s[0] == es_store[0] && t.s[1] == es_store[1] &&
+          t.s[2] == es_store[2])
+        entry = t.td;
+  } else {
+    // ------------------------------------------------------------ entry
+    if (scen == 1) {
+      if (vr::coin(0.4))
+        entry = (int)vr::irange(TRAVELDIRECTION_FACE_X_P, TRAVELDIRECTION_FACE_Z_N);
+    } else if (vr::coin(0.45)) {
+      entry = (int)vr::irange(1, TRAVELDIRECTION_NUMBER - 1);
+    }
+    es = td_spec(entry);
+  }
   int sign[3]; // required sign of the direction component
   for (int i = 0; i < 3; ++i)
     sign[i] = -es[i];
 
-  // ------------------------------------------------------------ start point
-  // relative coordinates; walls are computed the way the grid defines them
-  const int sclass = vr::weighted({30, 14, 12, 14, 8, 4, 6});
-  // 0 generic, 1 one coordinate on a wall, 2 two, 3 three, 4 within ulps of a
-  // wall, 5 within ulps of the upper boundary, 6 cell centre
-  double rel[3];
-  int onw[3] = {0, 0, 0};
-  {
-    int want = sclass <= 3 ? sclass : 0;
-    int order[3] = {0, 1, 2};
-    const int rot = (int)vr::irange(0, 2);
-    for (int i = 0; i < 3; ++i)
-      order[i] = (i + rot) % 3;
-    if (vr::coin())
-      std::swap(order[0], order[1]);
-    for (int j = 0; j < 3; ++j)
-      if (j < want)
-        onw[order[j]] = 1;
-  }
-  for (int i = 0; i < 3; ++i) {
-    if (es[i] != 0) {
-      rel[i] = es[i] > 0 ? B.L[i] : 0.;
-      // what a hand-over from the neighbour really delivers: the boundary
-      // up to the rounding of two anchor additions
-      if (vr::coin(0.3))
-        rel[i] = nextafter_n(rel[i], (int)vr::irange(-2, 2));
-      continue;
+  int sclass = -1, dclass = -1;
+  if (scen != 2) {
+    // ---------------------------------------------------------- start point
+    // relative coordinates; walls are computed the way the grid defines them
+    sclass = scen == 1 ? vr::weighted({40, 30, 15, 15, 0, 0, 0})
+                       : vr::weighted({30, 14, 12, 14, 8, 4, 6});
+    // 0 generic, 1 one coordinate on a wall, 2 two, 3 three, 4 within ulps of
+    // a wall, 5 within ulps of the upper boundary, 6 cell centre
+    int onw[3] = {0, 0, 0};
+    {
+      const int want = sclass <= 3 ? sclass : 0;
+      int order[3];
+      const int rot = (int)vr::irange(0, 2);
+      for (int i = 0; i < 3; ++i)
+        order[i] = (i + rot) % 3;
+      if (vr::coin())
+        std::swap(order[0], order[1]);
+      for (int j = 0; j < 3; ++j)
+        if (j < want)
+          onw[order[j]] = 1;
     }
-    const int kw = (int)vr::irange(0, n[i] - 1);
-    if (onw[i]) {
-      rel[i] = B.wall[i][kw];
-    } else if (sclass == 4 && vr::coin(0.7)) {
-      rel[i] = nextafter_n(B.wall[i][kw], (int)vr::irange(-3, 3));
-      if (rel[i] < 0.)
-        rel[i] = 0.;
-    } else if (sclass == 5 && vr::coin(0.6)) {
-      rel[i] = nextafter_n(B.L[i], -(int)vr::irange(1, 3));
-    } else if (sclass == 6) {
-      rel[i] = (kw + 0.5) * B.cs[i];
-    } else if (gmode == 0 && vr::coin(0.5)) {
-      rel[i] = B.wall[i][kw] + B.cs[i] * (double)vr::irange(1, 15) / 16.;
-    } else {
-      rel[i] = vr::uni() * B.L[i];
+    for (int i = 0; i < 3; ++i) {
+      if (es[i] != 0) {
+        rel[i] = es[i] > 0 ? B.L[i] : 0.;
+        // what a hand-over from the neighbour really delivers: the boundary
+        // up to the rounding of two anchor additions
+        if (scen == 0 && vr::coin(0.3))
+          rel[i] = jitter(rel[i], (int)vr::irange(-2, 2), B.L[i]);
+        continue;
+      }
+      const int kw = (int)vr::irange(0, n[i] - 1);
+      if (onw[i]) {
+        rel[i] = B.wall[i][kw];
+      } else if (sclass == 4 && vr::coin(0.7)) {
+        rel[i] = jitter(B.wall[i][kw], (int)vr::irange(-3, 3), B.L[i]);
+        if (rel[i] < 0.)
+          rel[i] = 0.;
+      } else if (sclass == 5 && vr::coin(0.6)) {
+        // (the closed upper boundary included: a hand-over through a face
+        // can deliver a free coordinate exactly on it)
+        rel[i] = nextafter_n(B.L[i], -(int)vr::irange(0, 3));
+      } else if (sclass == 6) {
+        rel[i] = (kw + 0.5) * B.cs[i];
+      } else if (gmode == 0 && (scen == 1 || vr::coin(0.5))) {
+        rel[i] = B.wall[i][kw] + B.cs[i] * (double)vr::irange(1, 15) / 16.;
+      } else {
+        rel[i] = vr::uni() * B.L[i];
+      }
     }
   }
   double pos[3], x0[3];
   for (int i = 0; i < 3; ++i) {
     pos[i] = anchor[i] + rel[i];
     if (es[i] == 0) {
-      // free coordinates live in the half-open block as the traversal sees
+      // free coordinates live in the closed block as the traversal sees
       // them (position - anchor)
       int guard = 0;
-      while (pos[i] - anchor[i] >= B.L[i] && guard++ < 64)
+      while (pos[i] - anchor[i] > B.L[i] && guard++ < 64)
         pos[i] = std::nextafter(pos[i], -HUGE_VAL);
       while (pos[i] - anchor[i] < 0. && guard++ < 128)
         pos[i] = std::nextafter(pos[i], HUGE_VAL);
@@ -919,114 +1054,116 @@ VCase gen_case(int method) {
       x0[i] = es[i] > 0 ? B.L[i] : 0.;
   }
 
-  // ------------------------------------------------------------ direction
-  double v[3] = {0., 0., 0.};
-  int ncon = 0;
-  for (int i = 0; i < 3; ++i)
-    ncon += sign[i] != 0;
-  int dclass = vr::weighted({30, 14, 12, 16, 18, 6});
-  // 0 generic, 1 axis, 2 plane, 3 lattice / power-of-two diagonal,
-  // 4 aimed at a lattice point / block corner / block edge, 5 grazing
-  if (dclass == 1 && ncon >= 2)
-    dclass = 2;
-  if (dclass == 2 && ncon == 3)
-    dclass = 3;
-  auto generic = [&]() {
+  if (scen != 2) {
+    // ---------------------------------------------------------- direction
+    int ncon = 0;
     for (int i = 0; i < 3; ++i)
-      v[i] = vr::uni(-1., 1.);
-    if (std::abs(v[0]) + std::abs(v[1]) + std::abs(v[2]) < 0.1)
-      v[0] = 1.;
-  };
-  switch (dclass) {
-  case 0:
-    generic();
-    break;
-  case 1: {
-    int a = (int)vr::irange(0, 2);
-    for (int i = 0; i < 3; ++i)
-      if (sign[i] != 0)
-        a = i;
-    static const std::vector<double> mag = {1., 1., 3., 0.7, 1e-3};
-    v[a] = (vr::coin() ? 1. : -1.) * vr::pick(mag);
-    break;
-  }
-  case 2: {
-    generic();
-    std::vector<int> fr;
-    for (int i = 0; i < 3; ++i)
-      if (sign[i] == 0)
-        fr.push_back(i);
-    const int z = vr::pick(fr);
-    if (vr::coin(0.4)) { // equal magnitudes in the plane
+      ncon += sign[i] != 0;
+    dclass = scen == 1 ? 1 : vr::weighted({32, 10, 12, 14, 24, 8});
+    // 0 generic, 1 axis, 2 plane, 3 lattice / power-of-two diagonal,
+    // 4 aimed at a lattice point / block corner / block edge, 5 grazing
+    if (dclass == 1 && ncon >= 2)
+      dclass = 2;
+    if (dclass == 2 && ncon == 3)
+      dclass = 3;
+    auto generic = [&]() {
       for (int i = 0; i < 3; ++i)
-        v[i] = v[i] < 0 ? -1. : 1.;
+        v[i] = vr::uni(-1., 1.);
+      if (std::abs(v[0]) + std::abs(v[1]) + std::abs(v[2]) < 0.1)
+        v[0] = 1.;
+    };
+    switch (dclass) {
+    case 0:
+      generic();
+      break;
+    case 1: {
+      int a = (int)vr::irange(0, 2);
+      for (int i = 0; i < 3; ++i)
+        if (sign[i] != 0)
+          a = i;
+      static const std::vector<double> mag = {1., 1., 3., 0.7, 1e-3};
+      v[a] = (vr::coin() ? 1. : -1.) * vr::pick(mag);
+      break;
     }
-    v[z] = 0.;
-    break;
-  }
-  case 3: {
-    const bool lattice = vr::coin(0.6);
-    for (int i = 0; i < 3; ++i) {
-      const double m =
-          lattice ? B.cs[i] : std::ldexp(1., (int)vr::irange(0, 2));
-      v[i] = (vr::coin() ? 1. : -1.) * m;
+    case 2: {
+      generic();
+      std::vector<int> fr;
+      for (int i = 0; i < 3; ++i)
+        if (sign[i] == 0)
+          fr.push_back(i);
+      const int z = vr::pick(fr);
+      if (vr::coin(0.4)) { // equal magnitudes in the plane
+        for (int i = 0; i < 3; ++i)
+          v[i] = v[i] < 0 ? -1. : 1.;
+      }
+      v[z] = 0.;
+      break;
     }
-    if (vr::coin(0.3)) {
+    case 3: {
+      const bool lattice = vr::coin(0.6);
+      for (int i = 0; i < 3; ++i) {
+        const double m =
+            lattice ? B.cs[i] : std::ldexp(1., (int)vr::irange(0, 2));
+        v[i] = (vr::coin() ? 1. : -1.) * m;
+      }
+      if (vr::coin(0.3)) {
+        std::vector<int> fr;
+        for (int i = 0; i < 3; ++i)
+          if (sign[i] == 0)
+            fr.push_back(i);
+        if (!fr.empty())
+          v[vr::pick(fr)] = 0.;
+      }
+      break;
+    }
+    case 4: {
+      // aim at a point whose coordinates are walls (block corner: all on the
+      // block boundary; block edge: two; lattice point: any walls)
+      const int kind = vr::weighted({40, 30, 30});
+      const int nfree = (kind == 1) ? 1 : 0; // generic target coordinates
+      const int skip = (int)vr::irange(0, 2);
+      for (int i = 0; i < 3; ++i) {
+        double tgt;
+        const int kc = geo::locate(B, i, x0[i]);
+        int lo = 0, hi = n[i];
+        if (sign[i] > 0)
+          lo = std::min(n[i], kc + 1);
+        if (sign[i] < 0)
+          hi = (x0[i] > B.wall[i][kc]) ? kc : std::max(0, kc - 1);
+        if (kind == 2) {
+          tgt = B.wall[i][vr::irange(lo, hi)];
+        } else {
+          // far or near block boundary, consistent with the required sign
+          const bool up =
+              sign[i] > 0 ? true : (sign[i] < 0 ? false : vr::coin());
+          tgt = up ? B.L[i] : 0.;
+        }
+        if (nfree > 0 && i == skip && sign[i] == 0)
+          tgt = vr::uni() * B.L[i];
+        v[i] = tgt - x0[i];
+      }
+      break;
+    }
+    default: {
+      generic();
       std::vector<int> fr;
       for (int i = 0; i < 3; ++i)
         if (sign[i] == 0)
           fr.push_back(i);
       if (!fr.empty())
-        v[vr::pick(fr)] = 0.;
+        v[vr::pick(fr)] =
+            (vr::coin() ? 1. : -1.) * std::pow(10., -vr::uni(6., 17.));
     }
-    break;
-  }
-  case 4: {
-    // aim at a point whose coordinates are walls (block corner: all on the
-    // block boundary; block edge: two; lattice point: any walls)
-    const int kind = vr::weighted({40, 30, 30});
-    int nfree = (kind == 1) ? 1 : 0; // number of generic target coordinates
-    const int skip = (int)vr::irange(0, 2);
+    }
     for (int i = 0; i < 3; ++i) {
-      double tgt;
-      const int kc = geo::locate(B, i, x0[i]);
-      int lo = 0, hi = n[i];
-      if (sign[i] > 0)
-        lo = std::min(n[i], kc + 1);
-      if (sign[i] < 0)
-        hi = (x0[i] > B.wall[i][kc]) ? kc : std::max(0, kc - 1);
-      if (kind == 2) {
-        tgt = B.wall[i][vr::irange(lo, hi)];
-      } else {
-        // far or near block boundary, consistent with the required sign
-        const bool up = sign[i] > 0 ? true : (sign[i] < 0 ? false : vr::coin());
-        tgt = up ? B.L[i] : 0.;
-      }
-      if (nfree > 0 && i == skip && sign[i] == 0)
-        tgt = vr::uni() * B.L[i];
-      v[i] = tgt - x0[i];
+      if (sign[i] == 0)
+        continue;
+      if (v[i] == 0.)
+        v[i] = dclass == 3 ? B.cs[i] : 0.5;
+      v[i] = sign[i] * std::abs(v[i]);
     }
     if (v[0] == 0. && v[1] == 0. && v[2] == 0.)
-      generic();
-    break;
-  }
-  default: {
-    generic();
-    std::vector<int> fr;
-    for (int i = 0; i < 3; ++i)
-      if (sign[i] == 0)
-        fr.push_back(i);
-    if (!fr.empty())
-      v[vr::pick(fr)] =
-          (vr::coin() ? 1. : -1.) * std::pow(10., -vr::uni(6., 17.));
-  }
-  }
-  for (int i = 0; i < 3; ++i) {
-    if (sign[i] == 0)
-      continue;
-    if (v[i] == 0.)
-      v[i] = dclass == 3 ? B.cs[i] : 0.5;
-    v[i] = sign[i] * std::abs(v[i]);
+      v[(int)vr::irange(0, 2)] = 1.; // (only free dimensions can be zero here)
   }
   // the unit direction the packet will hold (same operation as set_direction)
   Line ln;
@@ -1042,7 +1179,8 @@ VCase gen_case(int method) {
   std::vector<double> nH(nc), xH(nc), xHe(nc);
   std::vector<double> sigma(NUMBER_OF_IONNAMES, 0.);
   double weight, energy;
-  const int cmode = smallcontent ? 0 : (int)(1 + vr::weighted({25, 30, 35, 10}));
+  const int cmode =
+      smallcontent ? 0 : (int)(1 + vr::weighted({25, 30, 35, 10}));
   // 0 small dyadic, 1 homogeneous, 2 narrow, 3 twenty decades, 4 mostly empty
   const double pzero = cmode == 4 ? 0.8 : (vr::coin(0.5) ? 0.2 : 0.);
   if (cmode == 0) {
@@ -1050,8 +1188,9 @@ VCase gen_case(int method) {
     static const std::vector<double> xv = {0., 0.25, 0.5, 1., 1.};
     sigma[ION_H_n] = vr::pick(sv);
     sigma[ION_He_n] = vr::coin(0.5) ? 0. : vr::pick(sv);
+    const double pz = vr::coin(0.5) ? 0.5 : 0.15;
     for (int k = 0; k < nc; ++k) {
-      nH[k] = vr::coin(0.25) ? 0. : (double)vr::irange(1, 32) / 16.;
+      nH[k] = vr::coin(pz) ? 0. : (double)vr::irange(1, 32) / 16.;
       xH[k] = vr::pick(xv);
       xHe[k] = vr::pick(xv);
     }
@@ -1089,13 +1228,15 @@ VCase gen_case(int method) {
   for (int ion = 0; ion < NUMBER_OF_IONNAMES; ++ion) {
     if (ion == ION_H_n || ion == ION_He_n)
       continue;
-    sigma[ion] = vr::coin(0.5) ? 0. : sigma[ION_H_n] * vr::uni(0., 2.) + 1e-24 * vr::uni();
+    sigma[ion] = vr::coin(0.5) ? 0.
+                               : sigma[ION_H_n] * vr::uni(0., 2.) +
+                                     1e-24 * vr::uni();
   }
   energy = NU_H * vr::uni(1.0001, 4.);
   if (energy < NU_HE && cmode != 0)
     sigma[ION_He_n] = 0.; // below the helium threshold
   double J0 = 0.;
-  if (vr::coin(0.25))
+  if (vr::coin(0.2))
     J0 = (cmode == 0) ? 1.
                       : weight * std::max(sigma[ION_H_n], 1e-23) *
                             std::max(B.L[0], B.L[1]) * vr::logu(0.01, 100.);
@@ -1109,13 +1250,15 @@ VCase gen_case(int method) {
   std::vector<double> cum;
   double tot = 0.;
   for (auto &g : segs) {
-    const double kap =
-        nH[g.cell] * (sigma[ION_H_n] * xH[g.cell] + sigma[ION_He_n] * xHe[g.cell]);
+    const double kap = nH[g.cell] * (sigma[ION_H_n] * xH[g.cell] +
+                                     sigma[ION_He_n] * xHe[g.cell]);
     tot += (double)(g.tb - g.ta) * kap;
     cum.push_back(tot);
   }
   double tau;
-  int tmode = vr::weighted({22, 34, 22, 6, 10, 6});
+  int tmode = scen == 1   ? vr::weighted({15, 20, 55, 0, 0, 10})
+              : scen == 2 ? vr::weighted({70, 20, 10, 0, 0, 0})
+                          : vr::weighted({26, 44, 14, 6, 4, 6});
   // 0 beyond the block, 1 a fraction of the chord, 2 exactly the optical depth
   // at a cell wall on the path, 3 tiny, 4 the chord total up to rounding,
   // 5 a wall value +- 1 ulp
@@ -1123,7 +1266,8 @@ VCase gen_case(int method) {
     tmode = 0;
   switch (tmode) {
   case 0:
-    tau = tot > 0. ? tot * (vr::coin(0.3) ? 1e6 : vr::uni(1.001, 10.)) : vr::logu(1e-12, 1e3);
+    tau = tot > 0. ? tot * (vr::coin(0.3) ? 1e6 : vr::uni(1.001, 10.))
+                   : vr::logu(1e-12, 1e3);
     if (cmode == 0)
       tau = std::ceil(tot) + (double)vr::irange(1, 8) / 4.;
     break;
@@ -1138,6 +1282,10 @@ VCase gen_case(int method) {
     for (double x : cum)
       if (x > 0.)
         pos_cum.push_back(x);
+    // the chord total itself only in the exact scenario (elsewhere it is
+    // within rounding of the stop / leave threshold by construction)
+    if (scen != 1 && pos_cum.size() > 1 && vr::coin(0.9))
+      pos_cum.pop_back();
     tau = vr::pick(pos_cum);
     if (tmode == 5)
       tau = nextafter_n(tau, vr::coin() ? 1 : -1);
@@ -1147,7 +1295,7 @@ VCase gen_case(int method) {
     tau = tot * 1e-12;
     break;
   default: {
-    static const std::vector<double> off = {0.,    1e-15, -1e-15, 1e-12,
+    static const std::vector<double> off = {0.,     1e-15, -1e-15, 1e-12,
                                             -1e-12, 1e-9,  -1e-9};
     tau = tot * (1. + vr::pick(off));
   }
@@ -1157,6 +1305,7 @@ VCase gen_case(int method) {
 
   c.I("ncell", {n[0], n[1], n[2]});
   c.I("entry", entry);
+  c.I("scenario", {scen, sclass, dclass, tmode});
   c.D("anchor", {anchor[0], anchor[1], anchor[2]});
   c.D("side", {side[0], side[1], side[2]});
   c.D("pos", {pos[0], pos[1], pos[2]});
@@ -1180,7 +1329,7 @@ int main(int argc, char **argv) {
       "block of 1..12 cells per axis (independent), dyadic cells / generic "
       "sides on length scales 1e-3..3e16 / dyadic box with non-representable "
       "cell size; anchors 0, dyadic or generic; start generic, exactly on 1/2/3 "
-      "cell walls, within 3 ulp of a wall or of the upper boundary, cell "
+      "cell walls, within 3 ulp of a wall or of (and exactly on) the upper boundary, cell "
       "centre; entry INSIDE (55%) or one of the 26 boundary classifications "
       "with the position on that element (30% perturbed by <=2 ulp as a "
       "hand-over delivers it) and a compatible direction; directions generic, "
